@@ -1,7 +1,478 @@
-//! C01 — not built yet (stub).
+//! C01 — Wire decoding is total: any bytes give Ok or Err, never a panic or hang.
+//!
+//! Every entry point that takes network bytes is fed (i) valid model encodings, (ii) byte
+//! mutations of them, (iii) adversarial families built by construction (pointer chains, deep
+//! label stacks, length-boundary names, header counts far beyond the body, RDLENGTH games) and
+//! (iv) random bytes. Oracle: no panic; Ok ⇒ every decoded name ≤ 255 octets / labels 1..63;
+//! deterministic work bound on the name-decoding loop (hook counter) `steps ≤ 128·|b| + 1024`;
+//! a coarse wall budget per call turns non-termination into a violation (termination IS the claim).
 
-use crate::core::Check;
+use std::net::SocketAddr;
+use std::time::Duration;
+
+use hickory_net::xfer::Protocol;
+use hickory_proto::op::{DnsResponse, Header, Message, MessageRequest, Query};
+use hickory_proto::rr::rdata::tsig::TsigAlgorithm;
+use hickory_proto::rr::{Name, RData, Record, RecordType, TSigner};
+use hickory_proto::serialize::binary::{BinDecodable, BinDecoder};
+use hickory_proto::verif_hooks;
+use hickory_server::server::Request;
+use proptest::collection::vec;
+use proptest::prelude::*;
+use serde::{Deserialize, Serialize};
+
+use crate::checks::codec_util::{self as cu, Mutation};
+use crate::core::{prop_hang, CaseResult, Check, Fail, Rec};
+use crate::gen::msg;
+use crate::refm::wire_ref::{self as w, Compress, MMessage};
+
+#[derive(Clone, Debug, Serialize, Deserialize)]
+enum Source {
+    /// a valid model encoding, optionally mutated
+    Model { m: MMessage, mode: u8, fold_case: bool, muts: Vec<Mutation> },
+    Bytes(#[serde(with = "crate::core::hexser")] Vec<u8>),
+    /// `len` pseudo-random octets expanded from `seed`, with a plausible header in front
+    Random { seed: u64, len: u32, header: bool },
+    /// [root] [chain of `chain` pointers, each to the previous] then `refs` questions (or records)
+    /// whose name is a pointer to the chain's head
+    PointerChain { chain: u16, refs: u16, as_records: bool, label_before_chain: u8 },
+    /// a name of `labels` one-octet labels, then `refs` references to it
+    DeepLabels { labels: u8, refs: u16, label_len: u8 },
+    /// header counts far beyond what the body holds
+    Counts { counts: [u16; 4], #[serde(with = "crate::core::hexser")] body: Vec<u8> },
+    /// a single name of total wire length around the limit, optionally finished through a pointer
+    LongName { first_labels: Vec<u8>, via_pointer: bool, tail_labels: Vec<u8> },
+    /// one record whose RDLENGTH disagrees with its RDATA in a chosen way
+    Rdlen { rtype: u16, #[serde(with = "crate::core::hexser")] rdata: Vec<u8>, declared: u16, trailing: u8 },
+}
+
+#[derive(Clone, Debug, Serialize, Deserialize)]
+struct Case {
+    entry: u8,
+    /// offset selector for the record / name / RDATA entry points
+    off: u16,
+    /// record type selector for the RDATA entry point
+    rtype: u16,
+    src: Source,
+}
+
+const ENTRY_NAMES: [&str; 9] = ["message", "request", "response", "header+query", "record", "name", "rdata", "tsig-verify", "message-request"];
+
+fn xorshift_bytes(seed: u64, len: usize) -> Vec<u8> {
+    let mut s = seed | 1;
+    let mut out = Vec::with_capacity(len + 8);
+    while out.len() < len {
+        s ^= s << 13;
+        s ^= s >> 7;
+        s ^= s << 17;
+        out.extend_from_slice(&s.to_le_bytes());
+    }
+    out.truncate(len);
+    out
+}
+
+fn materialise(src: &Source) -> (Vec<u8>, &'static str) {
+    match src {
+        Source::Model { m, mode, fold_case, muts } => {
+            let mode = match mode % 3 {
+                0 => Compress::None,
+                1 => Compress::Standard,
+                _ => Compress::Everywhere,
+            };
+            let mut b = w::encode_message(m, mode, *fold_case).bytes;
+            b.truncate(65_535);
+            for mu in muts {
+                cu::apply_mutation(&mut b, mu);
+            }
+            (b, if muts.is_empty() { "valid" } else { "mutated" })
+        }
+        Source::Bytes(b) => (b.clone(), "raw"),
+        Source::Random { seed, len, header } => {
+            let mut b = xorshift_bytes(*seed, (*len as usize).min(65_535));
+            if *header && b.len() >= 12 {
+                // plausible counts so that the body is actually walked
+                b[2] &= 0x7f;
+                b[4] = 0;
+                b[5] = 1;
+                b[6] = 0;
+                b[7] &= 0x07;
+                b[8] = 0;
+                b[9] &= 0x03;
+                b[10] = 0;
+                b[11] &= 0x03;
+            }
+            (b, "random")
+        }
+        Source::PointerChain { chain, refs, as_records, label_before_chain } => {
+            // header | NULL record (owner root) whose RDATA holds: [labels] 0x00 then `chain` pointers,
+            // each pointing at the previous one | `refs` NS/CNAME records whose owner and RDATA are
+            // pointers to the head of the chain. Pointers only ever point backwards.
+            let mut out = vec![0u8; 12];
+            out.push(0);
+            out.extend_from_slice(&[0, 10, 0, 1, 0, 0, 0, 0]);
+            let len_at = out.len();
+            out.extend_from_slice(&[0, 0]);
+            let region_at = out.len();
+            for i in 0..*label_before_chain {
+                out.push(1);
+                out.push(b'a' + (i % 26));
+            }
+            out.push(0);
+            let mut last = region_at;
+            for _ in 0..*chain {
+                if out.len() + 2 > 0x3fff {
+                    break;
+                }
+                let at = out.len();
+                out.extend_from_slice(&(0xC000u16 | last as u16).to_be_bytes());
+                last = at;
+            }
+            let region_len = out.len() - region_at;
+            out[len_at..len_at + 2].copy_from_slice(&(region_len as u16).to_be_bytes());
+            let head = (0xC000u16 | last as u16).to_be_bytes();
+            let mut n = 0u16;
+            for _ in 0..*refs {
+                if out.len() + 14 > 65_535 {
+                    break;
+                }
+                out.extend_from_slice(&head);
+                out.extend_from_slice(&[0, if *as_records { 2 } else { 5 }, 0, 1, 0, 0, 0, 0, 0, 2]);
+                out.extend_from_slice(&head);
+                n += 1;
+            }
+            out[6..8].copy_from_slice(&(1 + n).to_be_bytes());
+            (out, "pointer-chain")
+        }
+        Source::DeepLabels { labels, refs, label_len } => {
+            let mut out = vec![0u8; 12];
+            out.push(0);
+            out.extend_from_slice(&[0, 10, 0, 1, 0, 0, 0, 0]);
+            let ll = (*label_len).clamp(1, 63) as usize;
+            let nl = (*labels as usize).min(253 / (ll + 1)).max(1);
+            let region_len = nl * (ll + 1) + 1;
+            out.extend_from_slice(&(region_len as u16).to_be_bytes());
+            let at = out.len();
+            for i in 0..nl {
+                out.push(ll as u8);
+                out.extend(std::iter::repeat_n(b'a' + (i % 26) as u8, ll));
+            }
+            out.push(0);
+            let mut n = 0u16;
+            for _ in 0..*refs {
+                if out.len() + 14 > 65_535 {
+                    break;
+                }
+                let p = (0xC000u16 | at as u16).to_be_bytes();
+                out.extend_from_slice(&p);
+                out.extend_from_slice(&[0, 2, 0, 1, 0, 0, 0, 0, 0, 2]);
+                out.extend_from_slice(&p);
+                n += 1;
+            }
+            out[6..8].copy_from_slice(&(1 + n).to_be_bytes());
+            (out, "deep-labels")
+        }
+        Source::Counts { counts, body } => {
+            let mut out = vec![0u8; 12];
+            for (i, c) in counts.iter().enumerate() {
+                out[4 + 2 * i..6 + 2 * i].copy_from_slice(&c.to_be_bytes());
+            }
+            out.extend_from_slice(body);
+            (out, "counts-beyond-body")
+        }
+        Source::LongName { first_labels, via_pointer, tail_labels } => {
+            // header | question: name built from first_labels (+ pointer to an earlier tail, or inline tail)
+            let mut out = vec![0u8; 12];
+            out[5] = 1;
+            let emit = |out: &mut Vec<u8>, ls: &[u8]| {
+                for (i, l) in ls.iter().enumerate() {
+                    let l = (*l).clamp(1, 70) as usize; // 64..70 are invalid label lengths on purpose
+                    out.push(l as u8);
+                    out.extend(std::iter::repeat_n(b'a' + (i % 26) as u8, l));
+                }
+            };
+            if *via_pointer {
+                // tail first, inside a leading NULL answer? pointers must go backwards, and the question
+                // comes first on the wire — so use two questions: the first holds the tail
+                out[5] = 2;
+                let tail_at = out.len();
+                emit(&mut out, tail_labels);
+                out.push(0);
+                out.extend_from_slice(&[0, 1, 0, 1]);
+                emit(&mut out, first_labels);
+                out.extend_from_slice(&(0xC000u16 | tail_at as u16).to_be_bytes());
+                out.extend_from_slice(&[0, 1, 0, 1]);
+            } else {
+                emit(&mut out, first_labels);
+                emit(&mut out, tail_labels);
+                out.push(0);
+                out.extend_from_slice(&[0, 1, 0, 1]);
+            }
+            (out, "length-boundary-name")
+        }
+        Source::Rdlen { rtype, rdata, declared, trailing } => {
+            let mut out = vec![0u8; 12];
+            out[7] = 1;
+            out.push(3);
+            out.extend_from_slice(b"www");
+            out.push(0);
+            out.extend_from_slice(&rtype.to_be_bytes());
+            out.extend_from_slice(&[0, 1, 0, 0, 0, 60]);
+            out.extend_from_slice(&declared.to_be_bytes());
+            out.extend_from_slice(rdata);
+            out.extend(std::iter::repeat_n(0xAA, *trailing as usize));
+            (out, "rdlength-games")
+        }
+    }
+}
+
+const RTYPES: &[u16] = &[
+    1, 2, 5, 6, 10, 12, 13, 15, 16, 24, 25, 28, 33, 35, 37, 41, 43, 44, 46, 47, 48, 50, 51, 52, 53, 59, 60, 61, 62, 64, 65, 250, 251, 252, 255, 257, 65305, 0, 3, 99, 65280,
+];
+
+fn tsigner() -> TSigner {
+    TSigner::new(vec![7u8; 32], TsigAlgorithm::HmacSha256, Name::from_ascii("key.example.").unwrap(), 300).expect("signer")
+}
+
+fn check_names<'a>(names: impl IntoIterator<Item = &'a Name>) -> Result<usize, Fail> {
+    let mut n = 0;
+    for name in names {
+        n += 1;
+        if let Err(e) = cu::check_name_limits(name) {
+            return Err(Fail::new("decoded-name-over-limit", format!("{e}: {:?}", name)));
+        }
+    }
+    Ok(n)
+}
+
+fn record_names(r: &Record) -> Vec<&Name> {
+    let mut v = vec![&r.name];
+    cu::names_in_rdata(&r.data, &mut v);
+    v
+}
+
+/// longest pointer-to-pointer chain in the packet (independent scan): a pointer at offset p whose
+/// target is itself a pointer extends the chain
+fn longest_pointer_chain(b: &[u8]) -> usize {
+    let n = b.len().min(0x4000);
+    let mut depth = vec![0u16; n + 1];
+    let mut best = 0usize;
+    for p in 0..n.saturating_sub(1) {
+        if b[p] & 0xC0 == 0xC0 {
+            let t = ((b[p] & 0x3f) as usize) << 8 | b[p + 1] as usize;
+            if t < p {
+                let d = depth[t].saturating_add(1);
+                depth[p] = d;
+                best = best.max(d as usize);
+            }
+        }
+    }
+    best
+}
+
+fn body(c: &Case, rec: &mut Rec) -> CaseResult {
+    let (bytes, family) = materialise(&c.src);
+    let entry = (c.entry as usize) % ENTRY_NAMES.len();
+    let ename = ENTRY_NAMES[entry];
+    let src: SocketAddr = "192.0.2.1:53".parse().unwrap();
+    verif_hooks::reset_name_decode_steps();
+    let off = if bytes.is_empty() { 0 } else { (c.off as usize) % bytes.len() };
+    // (outcome, number of names checked, consumed ≥ 12 octets before failing?)
+    let (ok, names): (bool, usize) = match entry {
+        0 => match Message::from_vec(&bytes) {
+            Ok(m) => (true, cu::check_message_names(&m).map_err(|e| Fail::new("decoded-name-over-limit", e))?),
+            Err(_) => (false, 0),
+        },
+        1 => match Request::from_bytes(bytes.clone(), src, Protocol::Udp) {
+            Ok(r) => {
+                let m: &MessageRequest = &r;
+                let mut v: Vec<&Name> = Vec::new();
+                let qn: Name = m.queries.original().name.clone();
+                check_names([&qn])?;
+                for rr in m.answers.iter().chain(&m.authorities).chain(&m.additionals) {
+                    v.extend(record_names(rr));
+                }
+                (true, 1 + check_names(v)?)
+            }
+            Err(_) => (false, 0),
+        },
+        2 => match DnsResponse::from_buffer(bytes.clone()) {
+            Ok(r) => (true, cu::check_message_names(&r).map_err(|e| Fail::new("decoded-name-over-limit", e))?),
+            Err(_) => (false, 0),
+        },
+        3 => {
+            let mut dec = BinDecoder::new(&bytes);
+            match Header::read(&mut dec) {
+                Ok(h) => {
+                    let mut n = 0;
+                    let mut ok = true;
+                    for _ in 0..h.counts.queries.min(64) {
+                        match Query::read(&mut dec) {
+                            Ok(q) => n += check_names([&q.name])?,
+                            Err(_) => {
+                                ok = false;
+                                break;
+                            }
+                        }
+                    }
+                    (ok, n)
+                }
+                Err(_) => (false, 0),
+            }
+        }
+        4 => {
+            let mut dec = BinDecoder::new(&bytes).clone(off as u16);
+            match Record::read(&mut dec) {
+                Ok(r) => (true, check_names(record_names(&r))?),
+                Err(_) => (false, 0),
+            }
+        }
+        5 => {
+            let mut dec = BinDecoder::new(&bytes).clone(off as u16);
+            match Name::read(&mut dec) {
+                Ok(n) => (true, check_names([&n])?),
+                Err(_) => (false, 0),
+            }
+        }
+        6 => {
+            let mut dec = BinDecoder::new(&bytes).clone(off as u16);
+            let len = (c.rtype as usize / 64) % (dec.len() + 1);
+            let rt = RecordType::from(RTYPES[c.rtype as usize % RTYPES.len()]);
+            match dec.split_off(len) {
+                Ok(sub) => match RData::read(sub, rt) {
+                    Ok(d) => {
+                        let mut v = Vec::new();
+                        cu::names_in_rdata(&d, &mut v);
+                        (true, check_names(v)?)
+                    }
+                    Err(_) => (false, 0),
+                },
+                Err(_) => (false, 0),
+            }
+        }
+        7 => {
+            // callers hand verify_message_byte only bytes that already parsed as a message
+            if Message::from_vec(&bytes).is_ok() {
+                verif_hooks::reset_name_decode_steps();
+                let s = tsigner();
+                (s.verify_message_byte(&bytes, None, true).is_ok(), 0)
+            } else {
+                rec.class("tsig-verify/not-a-message");
+                (false, 0)
+            }
+        }
+        _ => {
+            let mut dec = BinDecoder::new(&bytes);
+            match Header::read(&mut dec) {
+                Ok(h) => match MessageRequest::read(&mut dec, h) {
+                    Ok(m) => {
+                        let mut v: Vec<&Name> = Vec::new();
+                        for rr in m.answers.iter().chain(&m.authorities).chain(&m.additionals) {
+                            v.extend(record_names(rr));
+                        }
+                        (true, check_names(v)?)
+                    }
+                    Err(_) => (false, 0),
+                },
+                Err(_) => (false, 0),
+            }
+        }
+    };
+    let steps = verif_hooks::name_decode_steps();
+    let bound = 128 * bytes.len() as u64 + 1024;
+    rec.count("name_decode_steps", steps);
+    rec.count("input_octets", bytes.len() as u64);
+    if steps > bound {
+        let chain = longest_pointer_chain(&bytes);
+        let sig = if chain > 127 { "name-decode-superlinear-long-pointer-chains" } else { "decode-work-superlinear" };
+        vfail!(
+            sig,
+            "{ename} on {} octets ({family}): {steps} name-decoding steps > 128·|b|+1024 = {bound}; longest pointer-to-pointer chain {chain}",
+            bytes.len()
+        );
+    }
+    rec.class(format!("entry={ename}/{}", if ok { "ok" } else { "err" }));
+    rec.class(format!("family={family}"));
+    rec.class(match bytes.len() {
+        0..=12 => "len<=12",
+        13..=64 => "len<=64",
+        65..=1024 => "len<=1024",
+        1025..=8192 => "len<=8192",
+        _ => "len>8192",
+    });
+    let adversarial = !matches!(family, "valid" | "mutated" | "raw" | "random");
+    if (ok && names >= 1) || (!ok && bytes.len() > 12 && steps > 0) || adversarial {
+        rec.nontrivial();
+        if rec.wants_note() {
+            rec.note(format!(
+                "{ename}({family}, {} octets{}) -> {} [{} names, {steps} steps] {}",
+                bytes.len(),
+                if matches!(entry, 4..=6) { format!(", off {off}") } else { String::new() },
+                if ok { "Ok" } else { "Err" },
+                names,
+                crate::core::hexser::to_hex(&bytes[..bytes.len().min(48)])
+            ));
+        }
+    }
+    Ok(())
+}
+
+fn source(heavy: bool) -> BoxedStrategy<Source> {
+    let model = (
+        prop_oneof![6 => msg::message_with(msg::SizeClass::Small, false), 2 => msg::message_with(msg::SizeClass::Small, true), 2 => msg::message_with(msg::SizeClass::Medium, false)],
+        0u8..3,
+        any::<bool>(),
+        prop_oneof![3 => Just(vec![]), 5 => vec(cu::mutation(), 1..4)],
+    )
+        .prop_map(|(m, mode, fold_case, muts)| Source::Model { m, mode, fold_case, muts });
+    let raw = prop_oneof![
+        2 => vec(any::<u8>(), 0..=12),
+        3 => vec(any::<u8>(), 13..=64),
+        1 => vec(prop::sample::select(vec![0u8, 1, 0xc0, 0x0c, 0x3f, 0x40, 0xff, 41, 250, 46]), 12..=80),
+    ]
+    .prop_map(Source::Bytes);
+    let random = (any::<u64>(), prop_oneof![3 => 400u32..600, 2 => 3_000u32..5_000, if heavy { 1 } else { 0 } => Just(65_535u32)], any::<bool>())
+        .prop_map(|(seed, len, header)| Source::Random { seed, len, header });
+    let (max_chain, max_refs) = if heavy { (8_190u16, 4_000u16) } else { (400u16, 300u16) };
+    let chain = (prop_oneof![1u16..=130, 100u16..=max_chain], 1u16..=max_refs, any::<bool>(), 0u8..3)
+        .prop_map(|(chain, refs, as_records, label_before_chain)| Source::PointerChain { chain, refs, as_records, label_before_chain });
+    let deep = (prop_oneof![Just(127u8), Just(126u8), 1u8..=127], 1u16..=max_refs, prop_oneof![Just(1u8), Just(63u8), 1u8..=63])
+        .prop_map(|(labels, refs, label_len)| Source::DeepLabels { labels, refs, label_len });
+    let counts = (prop_oneof![Just([65_535u16; 4]), any::<[u16; 4]>(), Just([1u16, 65_535, 0, 0]), Just([0u16, 0, 0, 65_535])], vec(any::<u8>(), 0..40))
+        .prop_map(|(counts, body)| Source::Counts { counts, body });
+    let long = (vec(prop_oneof![Just(63u8), Just(64u8), Just(62u8), 1u8..=63], 0..6), any::<bool>(), vec(prop_oneof![Just(63u8), Just(61u8), Just(60u8), Just(59u8), Just(1u8), 1u8..=63], 0..5))
+        .prop_map(|(first_labels, via_pointer, tail_labels)| Source::LongName { first_labels, via_pointer, tail_labels });
+    let rdlen = (prop::sample::select(RTYPES.to_vec()), vec(any::<u8>(), 0..40), prop_oneof![Just(0u16), 0u16..48, Just(65_535u16)], 0u8..4)
+        .prop_map(|(rtype, rdata, declared, trailing)| Source::Rdlen { rtype, rdata, declared, trailing });
+    prop_oneof![
+        8 => model,
+        3 => raw,
+        2 => random,
+        2 => chain,
+        1 => deep,
+        1 => counts,
+        2 => long,
+        2 => rdlen,
+    ]
+    .boxed()
+}
+
+fn case(heavy: bool) -> impl Strategy<Value = Case> {
+    (0u8..9, any::<u16>(), any::<u16>(), source(heavy)).prop_map(|(entry, off, rtype, src)| Case { entry, off, rtype, src })
+}
 
 pub fn check() -> Option<Check> {
-    None
+    let light = prop_hang("decode_total", 200_000, 5_000_000, Duration::from_secs(20), |_| case(false), body);
+    // 64 KB inputs, full-length pointer chains: fewer, heavier cases
+    let heavy = prop_hang("decode_total_heavy", 1_500, 60_000, Duration::from_secs(20), |_| case(true), body);
+    Some(Check {
+        id: "C01",
+        level: "exploration",
+        rule: "entry points {Message::from_vec, Request::from_bytes, DnsResponse::from_buffer, Header+Query::read, Record::read@offset, Name::read@offset, RData::read(split_off(len), type) for 41 type codes, TSigner::verify_message_byte (on bytes that parse as a message), MessageRequest::read} × sources {valid model encodings (3 compression modes, case-folded pointer targets), 1..3 byte mutations of them (bit flip, byte set, truncate, extend, count edit, pointer injection, RDLENGTH / label-length edit, insert, delete, duplicate record), raw short strings, pseudo-random bodies up to 65,535 octets, pointer chains up to 8,190 hops referenced by up to 4,000 names, 127-label names referenced many times, header counts of 65,535 on tiny bodies, names around 253..256 octets with labels 62..70 with/without a pointer, RDLENGTH games}. Non-trivial = distinct case AND (decoded Ok with ≥1 name, or failed after reading past the header with the name decoder having run, or belongs to an adversarial family)",
+        assumptions: vec![
+            "'time proportional to the input length' is decided as deterministic work: iterations of the name-decoding loop (hook counter) ≤ 128·|b|+1024 per call; a 20 s wall budget per call only catches outright non-termination",
+            "allocation size is not examined (header counts pre-allocate; noted in DESIGN.md §10)",
+            "verify_message_byte is only fed bytes that Message::from_vec accepts, as its callers do",
+        ],
+        subs: vec![light, heavy],
+    })
 }
